@@ -115,6 +115,7 @@ func c09Expr(in c09Input, fn c09Fn) *refmodel.RangeAgg {
 }
 
 func c09Check(r *vkit.Run, in c09Input) bool {
+	r.Begin("C09", in)
 	fn := c09FnByName(in.Fn)
 	data := c09Data(in, fn)
 	expr := c09Expr(in, fn)
